@@ -53,17 +53,36 @@ def spec_family(family):
 
 
 def mc_run(chk, family, constants, invariants=ENGINE_INVS, properties=ENGINE_PROPS,
-           required=(), module="MC_System.tla", timeout=1500, workers=16, label="mc"):
-    """Exhaustive TLC run; a counterexample is a violation of the property on the design."""
+           required=(), module="MC_System.tla", timeout=1500, workers=16, label="mc", hist_limit=0):
+    """Exhaustive TLC run; a counterexample is a violation of the property on the design.
+    hist_limit > 0: the same run also prints one observable history per distinct quiescent end state; the
+    scenarios built from them are returned as second element."""
     wd = tlc.workdir("mc")
     try:
         fam = os.path.join(wd, "family.json")
         with open(fam, "w") as f:
             json.dump(spec_family(family), f)
         cfg = os.path.join(wd, "mc.cfg")
-        write_cfg(cfg, constants, invariants, properties)
-        rc, out, wall = tlc.run_tlc(module, cfg, env={"DEFS_FILE": fam}, workers=workers,
+        write_cfg(cfg, constants, list(invariants) + (["PrintHist"] if hist_limit else []), properties)
+        env = {"DEFS_FILE": fam}
+        if hist_limit:
+            env["MC_HIST"] = "1"
+        rc, out, wall = tlc.run_tlc(module, cfg, env=env, workers=workers,
                                     extra=["-coverage", "1"], timeout=timeout)
+        scns = []
+        if hist_limit:
+            seen = set()
+            for m in HIST_RE.findall(out):
+                txt = m.encode().decode("unicode_escape") if "\\" in m else m
+                if txt in seen:
+                    continue
+                seen.add(txt)
+                rec = json.loads(txt)
+                scns.append(hist_to_scenario(family[rec["di"] - 1], rec["hist"]))
+                if len(scns) >= hist_limit:
+                    break
+            chk.cov_add("spec_behaviours_replayed", len(scns))
+            out = HIST_RE.sub("", out)
         gen_, dist = tlc.parse_stats(out)
         cov = tlc.parse_coverage(out)
         chk.cov_add("states", dist)
@@ -84,7 +103,7 @@ def mc_run(chk, family, constants, invariants=ENGINE_INVS, properties=ENGINE_PRO
                 chk.report({"kind": "spec_counterexample", "formula": which},
                            f"TLC: {which} is violated on the specification (model {label})",
                            {"tlc_log_tail": out[-6000:]})
-                return cov
+                return (cov, scns) if hist_limit else cov
             log = os.path.join(tlc.WORK, f"mc_error_{chk.pid}.log")
             with open(log, "w") as f:
                 f.write(out)
@@ -92,7 +111,7 @@ def mc_run(chk, family, constants, invariants=ENGINE_INVS, properties=ENGINE_PRO
         for r in required:
             if cov.get(f"MC_System.{r}", (0, 0))[0] == 0:
                 raise MachineryError(f"vacuity: action {r} never taken in {label}")
-        return cov
+        return (cov, scns) if hist_limit else cov
     finally:
         shutil.rmtree(wd, ignore_errors=True)
 
@@ -242,8 +261,13 @@ def run_validate(chk, scenarios, label, shards=6, featurize=None, on_result=None
         text = (f"{label}: execution is not a behaviour of the specification: matched {v['matched']} of "
                 f"{v['lines']} lines; first unexplained line: {json.dumps(nxt)[:300]}"
                 + (f"; invariant {v['inv']} failed" if v.get("inv") else ""))
+        ss = v.get("spec_state")
+        if ss:
+            text += (f"; the specification was at: instance {ss['i']} phase={ss['phase']} event={ss['ev']!r} "
+                     f"transition#{ss['tix']} {ss['src']}->{ss['tgt']} pending callbacks={ss['pending']} open={ss['open']} "
+                     f"current state={ss['cur']!r} queued={ss['queued']} raising={ss['raising']} out={ss['out']}")
         chk.report(feats, text, {"scenario": scn, "observed": res["lines"], "matched": v["matched"],
-                                 "warnings": res.get("warnings", [])})
+                                 "expected_next": ss, "warnings": res.get("warnings", [])})
     chk.cov_add("traces_rejected", nrej)
     return verdicts
 
@@ -266,8 +290,7 @@ def standard(chk, rng, *, family_kw, consts, required, scen_fn, n_random, n_hist
     """The three legs shared by the engine-level checks."""
     import gen
     fam = [gen.family_member(rng, **family_kw) for _ in range(fam_size)]
-    mc_run(chk, fam, consts, required=required, label=f"{label} family")
-    hs = hist_scenarios(chk, fam, hist_consts or consts, limit=n_hist)
+    _cov, hs = mc_run(chk, fam, consts, required=required, label=f"{label} family", hist_limit=n_hist)
     run_validate(chk, hs, f"{label}: spec-behaviour replay", shards=shards)
     run_validate(chk, [scen_fn(rng) for _ in range(n_random)], f"{label}: random scenarios", shards=shards)
     return fam
